@@ -175,8 +175,9 @@ structure Names where
 
 structure ClientEnv where
   names : Names
-  /-- `exceptiontype(*args)`: the `.args` of the new instance, or what the constructor raised -/
-  ctor : Str → List Val → Except Exc (List Val)
+  /-- `exceptiontype(*args)`: class and `.args` of the new instance (OSError's constructor picks a subclass from
+      the errno), or what the constructor raised -/
+  ctor : Str → List Val → Except Exc (Str × List Val)
   /-- relations of a class as the isinstance tests of the client see them -/
   info : Str → Flags
 
@@ -350,10 +351,10 @@ def makeException (K : ClientEnv) (qual : Str) (data : Dict) : Except DErr PyObj
     | some xs =>
       match K.ctor qual xs with
       | .error x => .error (.raised x)
-      | .ok args' =>
+      | .ok (qual', args') =>
         match lookup kAttributes data with
-        | none => .ok (.exc ⟨qual, args', []⟩)
-        | some (.dict kv) => .ok (.exc ⟨qual, args', setAttrs [] kv⟩)
+        | none => .ok (.exc ⟨qual', args', []⟩)
+        | some (.dict kv) => .ok (.exc ⟨qual', args', setAttrs [] kv⟩)
         | some _ => .error .unmodelled   -- .items() of a non-dict
 
 /-- a name looked up in a module and tested with issubclass -/
@@ -545,7 +546,7 @@ def genNames : Names :=
   { registry := [], allExceptions := Pyro.Gen.C07.allExceptions, builtinsVars := Pyro.Gen.C07.builtinsVars,
     errorsVars := Pyro.Gen.C07.errorsVars, sqliteErrorVars := Pyro.Gen.C07.sqliteErrorVars }
 
-def genClientEnv (ctor : Str → List Val → Except Exc (List Val)) : ClientEnv :=
+def genClientEnv (ctor : Str → List Val → Except Exc (Str × List Val)) : ClientEnv :=
   { names := genNames, ctor := ctor, info := genInfo }
 
 /-- the class a serialised class name resolves to on the receiving side (the class-name dispatch of `dictToClass`
